@@ -3,7 +3,7 @@
 From Schwifty Require Import Lib.Base Lib.Lit Model.Clean Model.Data Model.Iban Model.Bban Model.National Model.Algorithms
   Model.Germany Model.Lookup.
 From Schwifty Require Import Spec.Iso13616 Spec.NationalPublished Proofs.TableOfJson.
-From Schwifty Require Import Proofs.NumFacts Proofs.IbanFacts Proofs.NationalFacts Proofs.NationalDigits Proofs.NationalCountries Proofs.GenObligations.
+From Schwifty Require Import Proofs.NumFacts Proofs.IbanFacts Proofs.NationalFacts Proofs.NationalDigits Proofs.NationalCountries Proofs.NationalMore Proofs.GenObligations.
 From Schwifty Require Import Gen.Env Gen.IbanData Gen.IbanCfg Gen.ChecksumCfg Gen.GermanyTbl Gen.Banks.
 From Coq Require Import String Lia.
 
@@ -287,12 +287,128 @@ Proof.
   rewrite (is_validate_eq nd_runs C06_nd_obl b _ ltac:(lia) Hd). cbn [bind]. reflexivity.
 Qed.
 
+(* Finland *)
+Lemma C06_fi_obl : comps_at (tx "FI") "finland.DefaultAlgorithm" [k_bank; k_account] 14
+  [(k_bank, (0, 3)); (k_account, (3, 13)); (k_national, (13, 14))] = true.
+Proof. vm_cast_no_check (eq_refl true). Qed.
+
+Theorem C06_fi : forall r b,
+  find_row the_table (tx "FI") = Some r -> conforms_row r b = true ->
+  validate_national the_table the_algos (bank_code_entries the_banks) (tx "FI") b =
+  if pub_fi b then Ok true else Err EInvalidBBANChecksum.
+Proof.
+  country_setup C06_fi_obl "finland.DefaultAlgorithm"%string.
+  apply texts_eqb_eq in Hacc. subst acc.
+  rewrite (national_reduce the_env the_iban_cfg the_table the_banks nd_runs registered the_german C06_onlyde_obl
+             "finland.DefaultAlgorithm" _ r _ b (mk [k_bank; k_account] (fi_compute nd_runs (ic_alphabet the_iban_cfg)) None) Hde Er Ereg eq_refl).
+  cbv zeta. cbn [al_accepts al_validate mk map].
+  rewrite !(comp_sl r _ _ _ b) by (first [eassumption|lia]).
+  rewrite (fi_validate nd_runs C06_nd_obl (ic_alphabet the_iban_cfg) C06_alpha_obl b) by (first [assumption|lia]).
+  cbn [bind]. reflexivity.
+Qed.
+
+(* ---- countries whose BBAN carries letters: Italy / San Marino (first character is the CIN letter) ------------------ *)
+Definition comps_at_a (cc : text) (cls : string) (accepts : list text) (n : Z) (ps : list (text * (nat * nat))) : bool :=
+  negb (text_eqb cc (tx "DE")) &&
+  match find_row the_table cc, registered_as registered cc cls with
+  | Some r, Some acc =>
+    texts_eqb acc accepts && Z.eqb (r_bban_length r) n
+    && forallb (fun p => pos_is r (fst p) (fst (snd p)) (snd (snd p))) ps
+  | _, _ => false
+  end.
+
+Ltac country_setup_a OBL cls :=
+  intros r b Er Hc; pose proof OBL as O; unfold comps_at_a in O; rewrite Er in O;
+  apply andb_true_iff in O as [Hde O]; apply negb_true_iff in Hde;
+  destruct (registered_as registered _ cls) as [acc|] eqn:Ereg; [|discriminate];
+  apply andb_true_iff in O as [O Hpos]; apply andb_true_iff in O as [Hacc Hn];
+  apply Z.eqb_eq in Hn;
+  pose proof (Proofs.IbanTheorems.conforms_row_alpha the_iban_cfg the_table table_obl _ r b Er Hc) as Ha;
+  assert (Hl : len b = r_bban_length r)
+    by (unfold conforms_row in Hc; destruct (row_kinds r); [|discriminate]; apply andb_true_iff in Hc as [Hl0 _];
+        apply Z.eqb_eq; exact Hl0);
+  rewrite Hn in Hl; unfold len in Hl;
+  cbn [forallb fst snd] in Hpos; repeat (apply andb_true_iff in Hpos as [? Hpos]); unfold the_algos.
+
+Lemma C06_it_obl : forallb (fun cc => comps_at_a cc "italy.DefaultAlgorithm" [k_bank; k_branch; k_account] 23
+  [(k_bank, (1, 6)); (k_branch, (6, 11)); (k_account, (11, 23)); (k_national, (0, 1))]
+  && match find_row the_table cc with
+     | Some r => match row_kinds r with Some (Ka :: _) => true | _ => false end
+     | None => false end) [tx "IT"; tx "SM"] = true.
+Proof. vm_cast_no_check (eq_refl true). Qed.
+
+Theorem C06_it : forall cc r b, In cc [tx "IT"; tx "SM"] ->
+  find_row the_table cc = Some r -> conforms_row r b = true ->
+  validate_national the_table the_algos (bank_code_entries the_banks) cc b =
+  if pub_it b then Ok true else Err EInvalidBBANChecksum.
+Proof.
+  intros cc r b Hin. pose proof C06_it_obl as OB. rewrite forallb_forall in OB. specialize (OB cc Hin).
+  apply andb_true_iff in OB as [OB Hfirst]. revert r b.
+  country_setup_a OB "italy.DefaultAlgorithm"%string.
+  apply texts_eqb_eq in Hacc. subst acc.
+  rewrite (national_reduce the_env the_iban_cfg the_table the_banks nd_runs registered the_german C06_onlyde_obl
+             "italy.DefaultAlgorithm" _ r _ b (mk [k_bank; k_branch; k_account] (it_compute the_env) None) Hde Er Ereg eq_refl).
+  cbv zeta. cbn [al_accepts al_validate mk map].
+  rewrite !(comp_sl r _ _ _ b) by (first [eassumption|lia]).
+  assert (Hu : is_ascii_upper (nth 0 b 0%N) = true).
+  { rewrite Er in Hfirst. unfold conforms_row in Hc. destruct (row_kinds r) as [[|[] ks]|]; try discriminate.
+    apply andb_true_iff in Hc as [_ Hc]. destruct b as [|c0 b']; [discriminate|]. cbn [conforms] in Hc.
+    apply andb_true_iff in Hc as [Hk _]. exact Hk. }
+  rewrite (it_validate the_env b) by (first [assumption|lia]). cbn [bind]. reflexivity.
+Qed.
+
+(* ---- France / Monaco ---------------------------------------------------------------------------------------------- *)
+Lemma conforms_nth : forall ks b i, conforms ks b = true -> i < List.length b -> kind_ok (nth i ks Kn) (nth i b 0%N) = true.
+Proof.
+  induction ks as [|k ks IH]; intros [|c b] i H Hi; cbn [conforms] in H; try discriminate; cbn [List.length] in Hi; try lia.
+  apply andb_true_iff in H as [H1 H2]. destruct i as [|i]; [exact H1|]. cbn [nth]. apply IH; [exact H2|lia].
+Qed.
+
+Lemma C06_fr_obl : forallb (fun cc => comps_at_a cc "france.DefaultAlgorithm" [k_bank; k_branch; k_account] 23
+  [(k_bank, (0, 5)); (k_branch, (5, 10)); (k_account, (10, 21)); (k_national, (21, 23))]
+  && match find_row the_table cc with
+     | Some r => match row_kinds r with
+                 | Some ks => match nth 21 ks Ka, nth 22 ks Ka with Kn, Kn => true | _, _ => false end
+                 | None => false end
+     | None => false end) [tx "FR"; tx "MC"] = true.
+Proof. vm_cast_no_check (eq_refl true). Qed.
+
+Theorem C06_fr : forall cc r b, In cc [tx "FR"; tx "MC"] ->
+  find_row the_table cc = Some r -> conforms_row r b = true ->
+  validate_national the_table the_algos (bank_code_entries the_banks) cc b =
+  if pub_fr b then Ok true else Err EInvalidBBANChecksum.
+Proof.
+  intros cc r b Hin. pose proof C06_fr_obl as OB. rewrite forallb_forall in OB. specialize (OB cc Hin).
+  apply andb_true_iff in OB as [OB Hkey]. revert r b.
+  country_setup_a OB "france.DefaultAlgorithm"%string.
+  apply texts_eqb_eq in Hacc. subst acc.
+  rewrite (national_reduce the_env the_iban_cfg the_table the_banks nd_runs registered the_german C06_onlyde_obl
+             "france.DefaultAlgorithm" _ r _ b (mk [k_bank; k_branch; k_account] (fr_compute nd_runs) None) Hde Er Ereg eq_refl).
+  cbv zeta. cbn [al_accepts al_validate mk map].
+  rewrite !(comp_sl r _ _ _ b) by (first [eassumption|lia]).
+  assert (Hk : forallb is_ascii_digit (sl 21 23 b) = true).
+  { rewrite Er in Hkey. unfold conforms_row in Hc. destruct (row_kinds r) as [ks|]; [|discriminate].
+    apply andb_true_iff in Hc as [_ Hc].
+    pose proof (conforms_nth ks b 21 Hc ltac:(lia)) as K1. pose proof (conforms_nth ks b 22 Hc ltac:(lia)) as K2.
+    destruct (nth 21 ks Ka) eqn:E1; try discriminate. destruct (nth 22 ks Ka) eqn:E2; try discriminate.
+    assert (N1 : nth 21 ks Kn = Kn).
+    { destruct (Nat.lt_ge_cases 21 (List.length ks)) as [Hlt|Hge]; [rewrite (nth_indep ks Kn Ka Hlt); exact E1|apply nth_overflow; exact Hge]. }
+    assert (N2 : nth 22 ks Kn = Kn).
+    { destruct (Nat.lt_ge_cases 22 (List.length ks)) as [Hlt|Hge]; [rewrite (nth_indep ks Kn Ka Hlt); exact E2|apply nth_overflow; exact Hge]. }
+    rewrite N1 in K1. rewrite N2 in K2. cbn [kind_ok] in K1, K2.
+    rewrite <- (sl_glue 21 22 23 b) by lia. rewrite !sl_single by lia. cbn [app forallb]. rewrite K1, K2. reflexivity. }
+  rewrite (fr_validate nd_runs C06_nd_obl b) by (first [assumption|lia]). cbn [bind]. reflexivity.
+Qed.
+
 Print Assumptions C06_pl.
 Print Assumptions C06_ee.
 Print Assumptions C06_es.
 Print Assumptions C06_no.
 Print Assumptions C06_cz.
 Print Assumptions C06_is.
+Print Assumptions C06_fi.
+Print Assumptions C06_it.
+Print Assumptions C06_fr.
 Print Assumptions C06_iso97.
 Print Assumptions C06_rib.
 Print Assumptions C06_be.
